@@ -267,7 +267,6 @@ Section Writer.
     rewrite <- !app_assoc. reflexivity.
   Qed.
 
-End Writer.
 
 (** * The recogniser accepts what the generator produces (grammar as relation = recogniser) *)
 Lemma take2_render n r : 0 <= n <= 99 -> take2 (two n ++ r) = Some (n, r).
@@ -332,4 +331,156 @@ Proof.
       + destruct (render_zone (f_zone f)); [exact I|]. exact (proj1 Hh). }
   rewrite Hfr. cbn [obind]. rewrite rec_zone_render by exact Hz. cbn [obind].
   destruct f; reflexivity.
+Qed.
+
+  (** ** the writer entry point: to_rfc3339_opts shows exactly the fields of the value *)
+  Theorem to_rfc3339_opts_ok y o dt secs frac off sf uz :
+    valid_yo y o = true -> good dt (dn_of_yo y o) ->
+    0 <= secs < 86400 -> 0 <= frac < 2000000000 -> (1000000000 <= frac -> secs mod 60 = 59) ->
+    -86400 < off < 86400 -> off mod 60 = 0 -> 0 <= sf <= 4 ->
+    0 <= year_of_dn (wall_dn y o secs off) <= 9999 ->
+    to_rfc3339_opts (mk_dtz (mk_ndt dt (Time.mk_time secs frac)) off) sf uz
+    = Val (render (fields_of y o secs frac off sf uz)).
+  Proof.
+    intros Hv Hg Hs Hf Hl Ho Hm Hsf Hy. unfold to_rfc3339_opts.
+    destruct (naive_local_ok y o dt secs frac off Hv Hg Hs Ho Hy) as (dl & Hn & Hgl).
+    rewrite Hn. cbn [bind dz_off].
+    rewrite (write_rfc3339_ok dl (wall_dn y o secs off) (wall_secs secs off) frac off sf uz); try assumption.
+    - reflexivity.
+    - unfold wall_secs. lia.
+    - unfold wall_secs. intros H. specialize (Hl H). lia.
+  Qed.
+
+  (** DateTime::to_rfc3339 (AutoSi, never 'Z') *)
+  Theorem to_rfc3339_ok y o dt secs frac off :
+    valid_yo y o = true -> good dt (dn_of_yo y o) ->
+    0 <= secs < 86400 -> 0 <= frac < 2000000000 -> (1000000000 <= frac -> secs mod 60 = 59) ->
+    -86400 < off < 86400 -> off mod 60 = 0 ->
+    0 <= year_of_dn (wall_dn y o secs off) <= 9999 ->
+    to_rfc3339 (mk_dtz (mk_ndt dt (Time.mk_time secs frac)) off)
+    = Val (render (fields_of y o secs frac off 4 false)).
+  Proof.
+    intros Hv Hg Hs Hf Hl Ho Hm Hy. unfold to_rfc3339.
+    destruct (naive_local_ok y o dt secs frac off Hv Hg Hs Ho Hy) as (dl & Hn & Hgl).
+    assert (Hov : overflowing_naive_local (mk_dtz (mk_ndt dt (Time.mk_time secs frac)) off)
+                  = Val (mk_ndt dl (Time.mk_time (wall_secs secs off) frac))).
+    { revert Hn. unfold naive_local, overflowing_naive_local, ndt_checked_add_offset, ndt_overflowing_add_offset.
+      cbn [dz_utc dz_off nd_date nd_time].
+      destruct (Time.overflowing_add_offset (Time.mk_time secs frac) off) as [[t days]| |]; cbn [bind]; try discriminate.
+      unfold shift_date_checked, shift_date_overflowing.
+      destruct (days =? -1).
+      - destruct (Date.pred_opt dt) as [[p|]| |]; cbn [bind obind unwrap_r unwrap]; try discriminate. intros H; exact H.
+      - destruct (days =? 1).
+        + destruct (Date.succ_opt dt) as [[p|]| |]; cbn [bind obind unwrap_r unwrap]; try discriminate. intros H; exact H.
+        + cbn [bind obind unwrap_r unwrap]. intros H; exact H. }
+    rewrite Hov. cbn [bind dz_off].
+    rewrite (write_rfc3339_ok dl (wall_dn y o secs off) (wall_secs secs off) frac off 4 false); try assumption; try lia.
+    - reflexivity.
+    - unfold wall_secs. lia.
+    - unfold wall_secs. intros H. specialize (Hl H). lia.
+  Qed.
+End Writer.
+
+(** * The fields of a value: well-formed, valid, strict; and they denote the truncated value *)
+Lemma digits_value_app l c acc : digits_value (l ++ [c]) acc = digits_value l acc * 10 + (c - 48).
+Proof. revert acc. induction l as [|x l IH]; intros acc; cbn [app digits_value]; [reflexivity|apply IH]. Qed.
+(** printing [k] digits of [v] and reading them back gives [v mod 10^k] *)
+Lemma digits_value_print k v acc : 0 <= v ->
+  digits_value (map dig (digits_of k v)) acc = acc * 10 ^ Z.of_nat k + v mod 10 ^ Z.of_nat k.
+Proof.
+  revert v. induction k as [|k IH]; intros v Hv.
+  - cbn [digits_of map digits_value]. change (10 ^ Z.of_nat 0) with 1. rewrite Z.mod_1_r. lia.
+  - cbn [digits_of]. rewrite map_app. cbn [map]. rewrite digits_value_app, IH by (apply Z.div_pos; lia).
+    unfold dig. replace (Z.of_nat (S k)) with (Z.succ (Z.of_nat k)) by lia. rewrite Z.pow_succ_r by lia.
+    assert (0 < 10 ^ Z.of_nat k) by (apply Z.pow_pos_nonneg; lia).
+    rewrite (Z.rem_mul_r v 10 (10 ^ Z.of_nat k)) by lia. ring.
+Qed.
+Lemma digits_of_length k v : List.length (digits_of k v) = k.
+Proof. revert v. induction k as [|k IH]; intros v; [reflexivity|]. cbn [digits_of]. rewrite app_length, IH. cbn. lia. Qed.
+Lemma digits_of_dig k v : forallb is_dig (digits_of k v) = true.
+Proof.
+  revert v. induction k as [|k IH]; intros v; [reflexivity|]. cbn [digits_of]. rewrite forallb_app, IH.
+  cbn [forallb andb]. unfold is_dig. lia.
+Qed.
+Lemma frac_nanos_print k v : (k <= 9)%nat -> 0 <= v < 10 ^ Z.of_nat k ->
+  frac_nanos (digits_of k v) = v * 10 ^ (9 - Z.of_nat k).
+Proof.
+  intros Hk Hv. pose proof (frac_value_digits 9 (map dig (digits_of k v)) 0) as H.
+  rewrite firstn_all2 in H by (rewrite map_length, digits_of_length; lia).
+  rewrite digits_value_print in H by lia. unfold blen in H. rewrite map_length, digits_of_length in H.
+  rewrite map_map in H. rewrite (map_ext _ (fun x => x)) in H by (intros a; unfold dig; lia). rewrite map_id in H.
+  unfold frac_nanos. rewrite Z.mod_small in H by lia. change (Z.of_nat 9) with 9 in H. lia.
+Qed.
+Lemma frac_nanos_shown sf sub : 0 <= sub < 1000000000 -> 0 <= sf <= 4 ->
+  frac_nanos (frac_shown (frac_digits sf sub) sub)
+  = sub / 10 ^ (9 - frac_digits sf sub) * 10 ^ (9 - frac_digits sf sub)
+  /\ forallb is_dig (frac_shown (frac_digits sf sub) sub) = true.
+Proof.
+  intros Hs Hsf. split; [|apply digits_of_dig]. unfold frac_shown.
+  assert (Hnd : frac_digits sf sub = 0 \/ frac_digits sf sub = 3 \/ frac_digits sf sub = 6 \/ frac_digits sf sub = 9).
+  { unfold frac_digits. repeat match goal with |- context [if ?c then _ else _] => destruct c end; lia. }
+  destruct Hnd as [->|[->|[->| ->]]].
+  - change (Z.to_nat 0) with 0%nat. change (10 ^ (9 - 0)) with 1000000000. cbn [digits_of]. change (frac_nanos []) with 0. lia.
+  - change (Z.to_nat 3) with 3%nat. change (10 ^ (9 - 3)) with 1000000.
+    rewrite frac_nanos_print by (change (10 ^ Z.of_nat 3) with 1000; lia). change (10 ^ (9 - Z.of_nat 3)) with 1000000. reflexivity.
+  - change (Z.to_nat 6) with 6%nat. change (10 ^ (9 - 6)) with 1000.
+    rewrite frac_nanos_print by (change (10 ^ Z.of_nat 6) with 1000000; lia). change (10 ^ (9 - Z.of_nat 6)) with 1000. reflexivity.
+  - change (Z.to_nat 9) with 9%nat. change (10 ^ (9 - 9)) with 1.
+    rewrite frac_nanos_print by (change (10 ^ Z.of_nat 9) with 1000000000; lia). change (10 ^ (9 - Z.of_nat 9)) with 1. reflexivity.
+Qed.
+
+Theorem fields_of_props y o secs frac off sf uz :
+  valid_yo y o = true ->
+  0 <= secs < 86400 -> 0 <= frac < 2000000000 -> (1000000000 <= frac -> secs mod 60 = 59) ->
+  -86400 < off < 86400 -> off mod 60 = 0 -> 0 <= sf <= 4 ->
+  0 <= year_of_dn (wall_dn y o secs off) <= 9999 ->
+  let f := fields_of y o secs frac off sf uz in
+  wf f = true /\ valid f = true /\ strict f = true /\
+  denote f = (y, o, secs, truncated_frac sf frac, off).
+Proof.
+  intros Hv Hs Hf Hl Ho Hm Hsf Hy. rewrite fields_of_wall. unfold fields_wall.
+  set (wn := wall_dn y o secs off) in *. set (ls := wall_secs secs off).
+  destruct (yo_of_dn_valid wn) as [Hvw Hdw]. unfold year_of_dn in Hy.
+  destruct (yo_of_dn wn) as [ly lo] eqn:Eyo. cbn [fst snd] in *.
+  assert (Hlo : 1 <= lo <= (if is_leap ly then 366 else 365)) by (unfold valid_yo, days_in_year in Hvw; destruct (is_leap ly); lia).
+  pose proof (md_range (is_leap ly) lo Hlo) as (Hmr & Hdr & Hdim & Hord).
+  destruct (md_of_ordinal (is_leap ly) lo) as [lm ld]. cbn [fst snd] in *.
+  set (leap := 1000000000 <=? frac). set (sub := if leap then frac - 1000000000 else frac).
+  assert (Hsub : 0 <= sub < 1000000000) by (subst sub leap; destruct (1000000000 <=? frac) eqn:E; lia).
+  destruct (frac_nanos_shown sf sub Hsub Hsf) as [Hfn Hfd].
+  assert (Hls : 0 <= ls < 86400) by (subst ls; unfold wall_secs; lia).
+  assert (Hl60 : leap = true -> ls mod 60 = 59).
+  { subst leap ls. unfold wall_secs. intros E. assert (1000000000 <= frac) by lia. specialize (Hl H). lia. }
+  set (sec := ls mod 60 + (if leap then 1 else 0)).
+  assert (Hsec : 0 <= sec <= 60) by (subst sec; destruct leap; lia).
+  set (z := if uz && (off =? 0) then Zulu 90 else Numeric (if off <? 0 then 1 else 0) (Z.abs off / 3600) (Z.abs off / 60 mod 60)).
+  assert (Hz : wf_zone z = true /\ valid_zone z = true /\ zone_offset z = off /\
+               match z with Zulu c => c =? 90 | Numeric sg _ _ => (sg =? 0) || (sg =? 1) end = true).
+  { subst z. destruct (uz && (off =? 0)) eqn:Ez.
+    - cbn. repeat split; lia.
+    - cbn [wf_zone valid_zone zone_offset]. unfold is2. destruct (off <? 0) eqn:En; cbn [Z.eqb]; repeat split; lia. }
+  destruct Hz as (Hz1 & Hz2 & Hz3 & Hz4).
+  cbv zeta. repeat split.
+  - unfold wf, is2. cbn [f_year f_month f_day f_sep f_hour f_minute f_second f_frac f_zone].
+    fold sub. rewrite Hfd, Hz1. subst sec. lia.
+  - unfold valid, valid_ymd. cbn [f_year f_month f_day f_sep f_hour f_minute f_second f_frac f_zone].
+    rewrite Hz2. lia.
+  - unfold strict. cbn [f_sep f_zone]. rewrite Hz4. reflexivity.
+  - unfold denote. cbn [f_year f_month f_day f_sep f_hour f_minute f_second f_frac f_zone].
+    fold sub leap z sec. rewrite Hz3, Hfn.
+    assert (Hdn : dn_of_ymd ly lm ld = wn) by (unfold dn_of_ymd; rewrite Hord; exact Hdw).
+    rewrite Hdn.
+    set (lsecs := ls / 3600 * 3600 + ls / 60 mod 60 * 60 + (if sec =? 60 then 59 else sec)).
+    assert (Hlsecs : lsecs = ls).
+    { subst lsecs sec. destruct leap eqn:El.
+      - specialize (Hl60 eq_refl). replace (ls mod 60 + 1 =? 60) with true by lia. lia.
+      - replace (ls mod 60 + 0 =? 60) with false by lia. lia. }
+    rewrite Hlsecs.
+    assert (Hback : wn + (ls - off) / 86400 = dn_of_yo y o /\ (ls - off) mod 86400 = secs).
+    { subst wn ls. unfold wall_dn, wall_secs. lia. }
+    destruct Hback as [-> ->]. rewrite yo_of_dn_of_yo by exact Hv.
+    unfold truncated_frac. fold leap sub.
+    replace (sec =? 60) with leap.
+    2:{ subst sec. destruct leap eqn:El; [specialize (Hl60 eq_refl)|]; lia. }
+    reflexivity.
 Qed.
